@@ -110,6 +110,32 @@ def run_case(case):
     except Exception as e:
         out["to_string_error"] = "%s: %s" % (type(e).__name__, str(e)[:200])
         return out
+    # to_file writes that text, to a file object and to a path alike (read back without newline translation)
+    try:
+        import io
+        import tempfile
+
+        buf = io.StringIO()
+        p1.to_file(buf)
+        got = [buf.getvalue()]
+        d = tempfile.mkdtemp(prefix="vrt")
+        path = os.path.join(d, "model.mpt")
+        p1.to_file(path)
+        import gc
+
+        gc.collect()
+        with io.open(path, "r", newline="", encoding=None) as f:
+            got.append(f.read())
+        import shutil
+
+        shutil.rmtree(d, ignore_errors=True)
+        out["to_file_same"] = [g == text for g in got]
+        if not all(out["to_file_same"]):
+            out["to_file_text"] = [g for g in got if g != text][0][:400]
+    except UnicodeError as e:
+        out["to_file_same"] = None  # the platform's default encoding cannot hold the text: outside the property
+    except Exception as e:
+        out["to_file_error"] = "%s: %s" % (type(e).__name__, str(e)[:200])
     try:
         p2 = Program.from_source(text, libraries=tuple(case.get("libraries", ["verif_rt"])))
         out["after"] = describe(p2)
